@@ -24,6 +24,11 @@ pub enum ImportKind {
     ReExport,
     /// `export * as ns_<dep> from`
     ReExportNs,
+    /// `import { v as iv_<dep> } from …; export { iv_<dep> as re_<dep> };` — an imported binding
+    /// exported under another name (an indirect export written as two statements)
+    ImportThenExportAs,
+    /// `import { v as re_<dep> } from …; export { re_<dep> };`
+    ImportThenExport,
 }
 
 #[derive(Clone, Debug, Serialize, Deserialize)]
@@ -54,6 +59,14 @@ pub struct Scn {
     /// chain[0], ...); main reads it through the last hop
     pub live: Option<(usize, Vec<usize>)>,
     pub gc_threshold: u32,
+    /// how the counter module exports its counter: 0 `export let counter`, 1 a local exported
+    /// under another name (`export { c0 as counter }`), 2 `let counter; export { counter }`
+    #[serde(default)]
+    pub counter_style: u8,
+    /// per hop of the chain: 0 `export { x as chained_counter } from`, 1 import then
+    /// `export { x as chained_counter }`, 2 import under a temporary name then export renamed
+    #[serde(default)]
+    pub chain_styles: Vec<u8>,
 }
 
 pub struct C09;
@@ -186,17 +199,47 @@ pub fn generate_graph(rng: &mut Rng) -> Scn {
     let tapes = (0..6)
         .map(|i| if i == 0 { Tape::from_vec(vec![]) } else { Tape::random(rng, 40) })
         .collect();
-    Scn { modules, tapes, live, gc_threshold: *rng.pick(&[0u32, 1, 3, 100]) }
+    let gc_threshold = *rng.pick(&[0u32, 1, 3, 100]);
+    let counter_style = rng.below(3) as u8;
+    let chain_styles = (0..3).map(|_| rng.below(3) as u8).collect();
+    Scn { modules, tapes, live, gc_threshold, counter_style, chain_styles }
 }
 
 fn pick_kind(rng: &mut Rng) -> ImportKind {
     match rng.below(10) {
-        0..=3 => ImportKind::Named,
-        4..=5 => ImportKind::Default,
-        6..=7 => ImportKind::Namespace,
-        8 => ImportKind::ReExport,
+        0..=2 => ImportKind::Named,
+        3..=4 => ImportKind::Default,
+        5..=6 => ImportKind::Namespace,
+        7..=8 => rng.pick(&[ImportKind::ReExport, ImportKind::ImportThenExportAs, ImportKind::ImportThenExport]).clone(),
         _ => ImportKind::ReExportNs,
     }
+}
+
+fn is_value_reexport(k: &ImportKind) -> bool {
+    matches!(k, ImportKind::ReExport | ImportKind::ImportThenExportAs | ImportKind::ImportThenExport)
+}
+
+/// Re-exports of main's namespace-imported dependencies that main reads back:
+/// (namespace local, property expression, module whose v is expected).
+fn observed_reexports(scn: &Scn) -> Vec<(String, usize)> {
+    let mut out = Vec::new();
+    if let Some(m0) = scn.modules.first() {
+        for e in &m0.edges {
+            if e.kind != ImportKind::Namespace {
+                continue;
+            }
+            let dep = &scn.modules[e.to];
+            for e2 in &dep.edges {
+                let d2 = &scn.modules[e2.to].name;
+                if is_value_reexport(&e2.kind) {
+                    out.push((format!("ns_{}.re_{}", dep.name, d2), e2.to));
+                } else if e2.kind == ImportKind::ReExportNs {
+                    out.push((format!("ns_{}.rns_{}.v", dep.name, d2), e2.to));
+                }
+            }
+        }
+    }
+    out
 }
 
 /// Expected exported value v of every module (closed form).
@@ -211,7 +254,7 @@ pub fn expected_values(scn: &Scn) -> Vec<i64> {
                 ImportKind::Named | ImportKind::Namespace => v[e.to],
                 ImportKind::Default => 2 * v[e.to],
                 // re-exports do not contribute to the importer's own value
-                ImportKind::ReExport | ImportKind::ReExportNs => 0,
+                ImportKind::ReExport | ImportKind::ReExportNs | ImportKind::ImportThenExportAs | ImportKind::ImportThenExport => 0,
             };
         }
         v[i] = s;
@@ -244,23 +287,41 @@ pub fn source_of(scn: &Scn, i: usize) -> String {
             ImportKind::ReExportNs => {
                 s.push_str(&format!("export * as rns_{d} from \"{}\";\n", e.spec));
             }
+            ImportKind::ImportThenExportAs => {
+                s.push_str(&format!("import {{ v as iv_{d} }} from \"{}\";\nexport {{ iv_{d} as re_{d} }};\n", e.spec));
+            }
+            ImportKind::ImportThenExport => {
+                s.push_str(&format!("import {{ v as re_{d} }} from \"{}\";\nexport {{ re_{d} }};\n", e.spec));
+            }
         }
     }
     // counter re-export chain
     if let Some((c, chain)) = &scn.live
         && let Some(pos) = chain.iter().position(|k| *k == i)
     {
-        if pos == 0 {
-            s.push_str(&format!("export {{ counter as chained_counter }} from \"{}\";\n", scn.modules[*c].path));
-        } else {
-            s.push_str(&format!("export {{ chained_counter }} from \"{}\";\n", scn.modules[chain[pos - 1]].path));
+        let (from_name, from_path) = if pos == 0 { ("counter", &scn.modules[*c].path) } else { ("chained_counter", &scn.modules[chain[pos - 1]].path) };
+        let mut style = scn.chain_styles.get(pos).copied().unwrap_or(0);
+        if style == 1 && from_name == "counter" && m.has_counter {
+            // this hop declares a counter of its own: import the foreign one under another name
+            style = 2;
+        }
+        match style {
+            1 if from_name == "counter" => s.push_str(&format!("import {{ counter }} from \"{from_path}\";\nexport {{ counter as chained_counter }};\n")),
+            1 => s.push_str(&format!("import {{ chained_counter }} from \"{from_path}\";\nexport {{ chained_counter }};\n")),
+            2 => s.push_str(&format!("import {{ {from_name} as tmp_cc }} from \"{from_path}\";\nexport {{ tmp_cc as chained_counter }};\n")),
+            _ if from_name == "counter" => s.push_str(&format!("export {{ counter as chained_counter }} from \"{from_path}\";\n")),
+            _ => s.push_str(&format!("export {{ chained_counter }} from \"{from_path}\";\n")),
         }
     }
     s.push_str(&format!("console.log(\"run {}\");\n", m.name));
     s.push_str(&format!("export const v: number = {};\n", terms.join(" + ")));
     s.push_str("export default v * 2;\n");
     if m.has_counter {
-        s.push_str("export let counter: number = 0;\nexport function bump(): number { counter += 1; return counter; }\n");
+        match scn.counter_style {
+            1 => s.push_str("let c0: number = 0;\nexport { c0 as counter };\nexport function bump(): number { c0 += 1; return c0; }\n"),
+            2 => s.push_str("let counter: number = 0;\nexport { counter };\nexport function bump(): number { counter += 1; return counter; }\n"),
+            _ => s.push_str("export let counter: number = 0;\nexport function bump(): number { counter += 1; return counter; }\n"),
+        }
     }
     if i == 0 {
         // main: result = its own value plus the live-binding observations
@@ -270,8 +331,8 @@ pub fn source_of(scn: &Scn, i: usize) -> String {
             let cm = &scn.modules[c];
             let spec_c = model_relative(&scn.modules[0].path, &cm.path);
             tail = format!(
-                "import {{ counter as live_c, bump as live_bump }} from \"{}\";\n{}",
-                spec_c, tail
+                "import {{ counter as live_c, bump as live_bump }} from \"{}\";\nimport * as live_ns from \"{}\";\n{}",
+                spec_c, spec_c, tail
             );
             if let Some(k) = via {
                 let spec_k = model_relative(&scn.modules[0].path, &scn.modules[k].path);
@@ -281,6 +342,10 @@ pub fn source_of(scn: &Scn, i: usize) -> String {
             if via.is_some() {
                 tail.push_str("__out.push(chained_counter);\n");
             }
+            tail.push_str("__out.push(live_ns.counter);\n");
+        }
+        for (expr, _) in observed_reexports(scn) {
+            tail.push_str(&format!("__out.push({});\n", expr));
         }
         tail.push_str("JSON.stringify(__out)\n");
         // imports must come first: split
@@ -314,6 +379,10 @@ pub fn expected_result(scn: &Scn) -> String {
         if !chain.is_empty() {
             out.push(2);
         }
+        out.push(2);
+    }
+    for (_, m) in observed_reexports(scn) {
+        out.push(v[m]);
     }
     format!("s:[{}]", out.iter().map(|x| x.to_string()).collect::<Vec<_>>().join(","))
 }
@@ -655,6 +724,17 @@ impl Check for C09 {
             let ev = run.exports.iter().find(|(n, _)| n == "v").map(|(_, v)| v.clone());
             if ev != Some(v0.to_string()) && rep.failure.is_none() {
                 rep.fail(f("export_value_differs_from_closed_form", format!("{:?}", ev), json!({"schedule_index": si, "expected": v0, "exports": run.exports})));
+            }
+            // the entry module's own value re-exports
+            for e in &scn.modules[0].edges {
+                if is_value_reexport(&e.kind) {
+                    let name = format!("re_{}", scn.modules[e.to].name);
+                    let want = expected_values(scn)[e.to].to_string();
+                    let got = run.exports.iter().find(|(n, _)| *n == name).map(|(_, v)| v.clone());
+                    if got.as_deref() != Some(want.as_str()) && rep.failure.is_none() {
+                        rep.fail(f("reexported_value_differs_from_closed_form", format!("{}={:?}", name, got), json!({"schedule_index": si, "expected": want, "exports": run.exports})));
+                    }
+                }
             }
             match &first {
                 None => first = Some((run.result.clone(), run.exports.clone())),
